@@ -10,8 +10,12 @@ CONSTANTS MaxLen, MaxArg, ChainLen, ChainInLen, EmitAll
 Alphabet == {97, 66, SP, LF, TAB, 44, 60, EACUTE, COMBINING, EMOJI, 223, 305}     \* sharp s and dotless i: upper-casing changes length and width
 RECURSIVE Strings(_)
 Strings(n) == IF n = 0 THEN {<<>>} ELSE Strings(n - 1) \cup {Append(s, c) : s \in {q \in Strings(n - 1) : Len(q) = n - 1}, c \in Alphabet}
-Inputs == Strings(MaxLen)
-Args   == Strings(MaxArg)
+\* the two wide characters take part up to length 3 and in one-character arguments; length 4 stays over the ten core characters
+WideChars == {223, 305}
+RECURSIVE CoreStrings(_)
+CoreStrings(n) == IF n = 0 THEN {<<>>} ELSE CoreStrings(n - 1) \cup {Append(s, c) : s \in {q \in CoreStrings(n - 1) : Len(q) = n - 1}, c \in Alphabet \ WideChars}
+Inputs == Strings(IF MaxLen > 3 THEN 3 ELSE MaxLen) \cup CoreStrings(MaxLen)
+Args   == Strings(1) \cup CoreStrings(MaxArg)
 Ints   == (0 - 6)..8
 Ellipses == {<<>>, <<46, 46, 46>>, <<EACUTE>>, <<97, COMBINING>>}
 
